@@ -48,6 +48,8 @@ pub(crate) fn generate_salt() -> String {
     crate::verif_hooks::point(crate::verif_hooks::Point::SaltDraw);
     let mut buf = [0u8; 16];
     ThreadRng::default().fill_bytes(&mut buf);
+    #[cfg(feature = "verif_hooks")]
+    crate::verif_hooks::point(crate::verif_hooks::Point::SaltDrawn);
     base64url_encode(&buf)
 }
 
